@@ -7,6 +7,7 @@ import ChiDriver.C19
 import ChiDriver.C09
 import ChiDriver.C10
 import ChiDriver.C06
+import ChiDriver.C07
 namespace ChiDriver
-def allOps : List (String × Op) := C04.ops ++ C01.ops ++ C08.ops ++ C02.ops ++ C03.ops ++ C19.ops ++ C09.ops ++ C10.ops ++ C06.ops
+def allOps : List (String × Op) := C04.ops ++ C01.ops ++ C08.ops ++ C02.ops ++ C03.ops ++ C19.ops ++ C09.ops ++ C10.ops ++ C06.ops ++ C07.ops
 end ChiDriver
